@@ -1123,6 +1123,36 @@ def sweep_probes(s, what):
                     yield "msg_wire", [f2, bits]
 
 
+def small_scope_probes(tier):
+    """small scopes swept completely: every octet value at every position of a short message under
+    four option combinations; every 2-octet name prefix; every string over an 8-letter alphabet up
+    to length 4 (quick) / 5 (thorough) as a name, a TTL, a TXT rdata, an A rdata and a zone line"""
+    import itertools
+    import struct
+
+    thorough = tier == "thorough"
+    base = bytes.fromhex("123401000001000100000001") + b"\x01a\x00" + struct.pack("!HH", 1, 1) + b"\xc0\x0c" + \
+        struct.pack("!HHIH", 15, 1, 300, 4) + b"\x00\x0a\xc0\x0c" + b"\0" + struct.pack("!HHIH", 41, 1232, 0, 0)
+    vals = range(256) if thorough else list(range(0, 256, 5)) + [0xC0, 0xFF, 0x3F, 0x40]
+    for pos in range(2, len(base)):
+        for v in vals:
+            w = base[:pos] + bytes([v]) + base[pos + 1:]
+            for bits in (0, 8, 8 | 2 | 1, 4 | 8):
+                yield "msg_wire", [w, bits]
+    for a in range(256):
+        for b in (range(256) if thorough else (0, 1, 12, 63, 64, 0xC0, 0xFF)):
+            yield "name_wire", [bytes([a, b, 0]), 0]
+    alpha = ["1", "w", "\\", ".", '"', "(", " ", "9"]
+    for ln in range(0, (6 if thorough else 5)):
+        for tup in itertools.product(alpha, repeat=ln):
+            t = "".join(tup)
+            yield "name_text", [t, 1, 0]
+            yield "ttl_text", [t]
+            yield "rdata_text", [1, 16, t, 1, 1]
+            yield "rdata_text", [1, 1, t, 0, 0]
+            yield "zone_text", ["$ORIGIN example.\n" + t + " 300 IN A 10.0.0.1\n" + t + "\n", 1, 1, 0]
+
+
 def sweep_batch(args):
     """worker: (what, shard, nshards) -> (counts, fails)"""
     what, shard, nshards = args
@@ -1130,7 +1160,9 @@ def sweep_batch(args):
     counts = {}
     fails = []
     hangs = 0
-    for i, (e, p) in enumerate(sweep_probes(s, what)):
+    gen = small_scope_probes(what.split(":")[1]) if what.startswith("small:") else sweep_probes(s, what)
+    what = what.split(":")[0]
+    for i, (e, p) in enumerate(gen):
         if i % nshards != shard:
             continue
         out, f = run_probe(e, p)
